@@ -23,6 +23,7 @@ import (
 	"strconv"
 	"strings"
 	"sync"
+	"time"
 
 	"com.tuntun.rangers/node/src/common"
 	"com.tuntun.rangers/node/src/consensus/base"
@@ -241,8 +242,9 @@ var fixedShortMsgs = []string{
 
 // msgPool: boundary messages of this run.
 type msgPool struct {
-	msgs  [][]byte
-	kinds []string
+	msgs    [][]byte
+	kinds   []string
+	related []int // indexes of the related-message families, in family order
 }
 
 func newMsgPool(r *hx.Rng, thorough bool) *msgPool {
@@ -251,6 +253,27 @@ func newMsgPool(r *hx.Rng, thorough bool) *msgPool {
 	for i, f := range fixedShortMsgs {
 		b, _ := hx.UnHex(f)
 		add(fmt.Sprintf("fixed%d", i), b)
+	}
+	// families of RELATED messages (what a truncating, padding or caching hash path confuses): the same
+	// last 32 bytes under different prefixes (the 64-byte random-beacon input vs a 32-byte hash), a
+	// message and its leading-zero-padded / stripped variants, prefixes and suffixes of each other
+	for f := 0; f < 2; f++ {
+		b := r.Bytes(32)
+		b[0] |= 1
+		tail := b[1:]
+		cat := func(xs ...[]byte) []byte {
+			var o []byte
+			for _, x := range xs {
+				o = append(o, x...)
+			}
+			return o
+		}
+		fam := [][]byte{b, cat(r.Bytes(32), b), cat(r.Bytes(32), b), cat(r.Bytes(68), b), cat(b, r.Bytes(32)),
+			tail, cat([]byte{0}, tail), cat(make([]byte, 33), tail), cat([]byte{0}, b), cat(b, []byte{0}), b[:31]}
+		for i, m := range fam {
+			add(fmt.Sprintf("related%d.%d", f, i), m)
+			mp.related = append(mp.related, len(mp.msgs)-1)
+		}
 	}
 	add("x<2^248", shortCoordMsg(r, "x", 1))
 	add("y<2^248", shortCoordMsg(r, "y", 1))
@@ -803,6 +826,7 @@ type dkgObs struct {
 	Direct      string
 	MskBad      int    // first member whose key differs from f(x_j) computed independently (math/big Horner), -1 if none
 	HashDiffers bool   // code's H(m) differs from the reference
+	RefPairing  int    // generator's signature in e(sig, g2) == e(refH(m), gpk), evaluated with bn256.Pair directly: 1 holds, 0 fails, -1 not evaluated
 	RefDirect   string // gsk * (reference H(m)), computed without the code's hash-to-G1
 	Twin        string // group signature held by logical.groupSignGenerator ("" when the hook is absent)
 }
@@ -983,9 +1007,19 @@ func execDkg(w []string, obs *dkgObs) string {
 		if !gpkSecret.IsEqual(d.gpk[0]) {
 			obs.GpkAgree = false
 		}
+		obs.RefPairing = -1
 		if m >= k {
 			gs := gen.GetGroupSign()
 			obs.GroupVerify = gen.VerifyGroupSign(d.gpk[0], msg) && groupsig.VerifySig(d.gpk[0], msg, gs)
+			// the verification equation with the REFERENCE hash point, without VerifySig / hashToG1
+			sp := g1Of(gs.Serialize())
+			pk := new(bn.G2)
+			if _, e := pk.Unmarshal(d.gpk[0].Serialize()); e == nil && sp != nil {
+				obs.RefPairing = 0
+				if bn.PairIsEuqal(bn.Pair(sp, bn.GetG2Base()), bn.Pair(g1Of(hm), pk)) {
+					obs.RefPairing = 1
+				}
+			}
 		}
 	}
 	return strings.Join(msks, ",") + " " + secTok(gsk) + " " + first + " " + allS + " " + sigTok(&direct) + " " + hx.Hex(d.gpk[0].Serialize()) + mutated
@@ -1000,6 +1034,9 @@ type gen struct {
 	pool *msgPool
 	// lines emitted so far (for the history phase)
 	emitted []string
+	hangs   int
+	// when set, dkgLineIds signs this message (related-message sequences)
+	forceMsg []byte
 	// distribution
 	dist map[string]int
 }
@@ -1010,9 +1047,34 @@ func (g *gen) emit(line string) string {
 	if !strings.HasPrefix(line, "groupk ") {
 		g.emitted = append(g.emitted, line)
 	}
-	ans := g.out.Do(line, func() string { return execOp(line) })
+	if g.hangs >= maxHangs {
+		return "SKIPPED" // the code under test keeps blocking: stop calling it, report what was found
+	}
+	ans := g.out.Do(line, func() string { return callWithDeadline(line) })
+	if strings.HasPrefix(ans, "HANG") {
+		g.hangs++
+	}
 	g.dist["res."+classify(line, ans)]++
 	return ans
+}
+
+// Every call into the code under test runs under a deadline. A call that does not return is the
+// answer `HANG` (the goroutine is abandoned; later ops use fresh objects), reported by the plugin as
+// the violation `hang:<op kind>` whose replay is the op line — for `gen`/`lgen`/`deliver`/`dkg` that
+// is the arrival / delivery sequence up to and including the blocked call.
+const maxHangs = 3
+
+var callDeadline = 8 * time.Second // a single op takes well under a second (40 s in the -race build)
+
+func callWithDeadline(line string) string {
+	ch := make(chan string, 1)
+	go func() { ch <- hx.Guard(func() string { return execOp(line) }) }()
+	select {
+	case a := <-ch:
+		return a
+	case <-time.After(callDeadline):
+		return "HANG after " + callDeadline.String()
+	}
 }
 
 // classify names the branch of the real code an op reached (for the input-distribution report).
@@ -1026,6 +1088,8 @@ func classify(line, ans string) string {
 	switch {
 	case strings.HasPrefix(ans, "PANIC"):
 		return kind + ":panic"
+	case strings.HasPrefix(ans, "HANG"):
+		return kind + ":hang"
 	case ans == "bad-op" || ans == "dup-ids" || ans == "nil" || ans == "short" || ans == "arg-failed":
 		return kind + ":" + ans
 	}
@@ -1753,6 +1817,9 @@ func (g *gen) dkgLineIds(n int, cl string, arrivals func(k int) []int, idsOut *[
 		return "", false
 	}
 	msg, mk := g.message()
+	if g.forceMsg != nil {
+		msg, mk = g.forceMsg, "forced"
+	}
 	g.count("dkg.msg=" + mk)
 	arr := arrivals(d.k)
 	if g.out != nil && collides(ids) && len(arr) > d.k {
@@ -1880,9 +1947,32 @@ func search(r *hx.Rng, thorough bool, hintLines []string) searchOut {
 			}
 		}
 	}
+	prior := "" // op lines executed earlier in this process that a history-dependent violation needs
+	addV0 := addV
+	addV = func(key, desc, line string) {
+		n0 := len(so.Violations)
+		addV0(key, desc, line)
+		if prior != "" && len(so.Violations) > n0 {
+			so.Violations[len(so.Violations)-1].Replay["prior"] = prior
+			so.Violations[len(so.Violations)-1].Replay["how"] = "harness/bin/c13 mode=exec prior='<prior>' op='<op>'  (same process, in this order)"
+		}
+	}
+	hangs := 0
 	checkDkg := func(line string, cl string) {
+		if hangs >= maxHangs {
+			return
+		}
 		var obs dkgObs
-		ans := hx.Guard(func() string { return execDkg(strings.Fields(line), &obs) })
+		ch := make(chan string, 1)
+		go func() { ch <- hx.Guard(func() string { return execDkg(strings.Fields(line), &obs) }) }()
+		var ans string
+		select {
+		case ans = <-ch:
+		case <-time.After(callDeadline):
+			hangs++
+			addV("hang:dkg", "the DKG / signing / recovery scenario did not return within "+callDeadline.String()+" (a call into the code under test blocks)", line)
+			return
+		}
 		so.Evaluations++
 		if !seen[line] {
 			seen[line] = true
@@ -1946,6 +2036,9 @@ func search(r *hx.Rng, thorough bool, hintLines []string) searchOut {
 		if obs.HashDiffers {
 			addV("hash-to-g1-differs-from-reference", "H(m) computed by the code differs from the independent try-and-increment reference", line)
 		}
+		if obs.RefPairing == 0 && sufFirst == "" {
+			addV("group-signature-fails-reference-pairing", "e(sig, g2) != e(refH(m), groupPubKey) for the generator's signature (reference hash point, bn256.Pair; not VerifySig)", line)
+		}
 		if obs.RefDirect != obs.Direct {
 			addV("signature-differs-from-reference", "Sign(group secret, m) differs from gsk*(reference H(m)): "+trunc(obs.Direct, 40)+" vs "+trunc(obs.RefDirect, 40), line)
 		}
@@ -1987,6 +2080,38 @@ func search(r *hx.Rng, thorough bool, hintLines []string) searchOut {
 	if thorough {
 		reps = 12
 	}
+	// related-message sequences in ONE process: every family member is hashed and signed in turn (a
+	// 3-member group each time); a result that depends on what was hashed before — a cache keyed too
+	// coarsely, a reused buffer — differs from the independent reference from the second member on
+	for fi := 0; fi+11 <= len(g.pool.related) && fi < 22; fi += 11 {
+		prior = ""
+		for _, idx := range g.pool.related[fi : fi+11] {
+			m := g.pool.msgs[idx]
+			hl := "hashg1 " + hx.Hex(m) + " " + hx.Hex(refHashPoint(m))
+			a := callWithDeadline(hl)
+			so.Evaluations++
+			so.Dist["search.related-message hash"]++
+			if strings.HasPrefix(a, "HANG") {
+				addV("hang:hashg1", "hash-to-G1 did not return", hl)
+			} else if a != hx.Hex(refHashPoint(m)) {
+				addV("hash-to-g1-differs-from-reference", "H(m) of a message related to an earlier one (same last 32 bytes / leading-zero variant) differs from the reference: "+trunc(a, 40), hl)
+			}
+			if idx%3 == 0 || thorough {
+				g.forceMsg = m
+				if line, ok := g.dkgLine(min, "hash", g.randomArrival(min)); ok {
+					so.Dist["search.related-message dkg"]++
+					checkDkg(line, "hash")
+				}
+				g.forceMsg = nil
+			}
+			if prior == "" {
+				prior = hl
+			} else {
+				prior += " ;; " + hl
+			}
+		}
+	}
+	prior = ""
 	// directed: two members whose ids are congruent modulo the group order answer first
 	for _, n := range []int{min, max} {
 		var ids []*big.Int
@@ -2089,9 +2214,12 @@ func search(r *hx.Rng, thorough bool, hintLines []string) searchOut {
 		}
 		tot.Mod(tot, order)
 		line := strings.Join(w, " ")
-		ans := hx.Guard(func() string { return execOp(line) })
+		ans := callWithDeadline(line)
 		so.Evaluations++
 		so.Dist["search.deliver stranger-before-completion"]++
+		if strings.HasPrefix(ans, "HANG") {
+			addV("hang:deliver", "handleSharePiece did not return", line)
+		}
 		if f := strings.Fields(ans); len(f) == 3 && f[1] != natTok(tot) {
 			addV("dkg-nonmember-piece-counted", "a piece from a non-member delivered before the last dealer's completes the DKG: statuses "+f[0]+", signing key differs from the sum of the "+strconv.Itoa(n)+" dealers' shares", line)
 		}
@@ -2168,7 +2296,11 @@ func concurrencyPhase(g *gen, so *searchOut, addV func(key, desc, line string), 
 	seq := make([]string, len(lines))
 	for i, l := range lines {
 		l := l
-		seq[i] = hx.Guard(func() string { return execOp(l) })
+		seq[i] = callWithDeadline(l)
+		if strings.HasPrefix(seq[i], "HANG") {
+			addV("hang:"+strings.Fields(l)[0], "the call did not return", l)
+			return
+		}
 	}
 	workers, rounds := 8, 6
 	if thorough {
@@ -2198,7 +2330,10 @@ func concurrencyPhase(g *gen, so *searchOut, addV func(key, desc, line string), 
 			}
 		}(w)
 	}
-	wg.Wait()
+	if !waitTimeout(&wg, 6*callDeadline) {
+		addV("hang:concurrent-callers", "the concurrent callers did not all return within "+(6*callDeadline).String(), strings.Join(lines[:2], " ;; "))
+		return
+	}
 	so.Evaluations += workers * rounds * len(lines)
 	so.Dist["concurrency.ops-compared"] += workers * rounds * len(lines)
 	for i, a := range bad {
@@ -2225,13 +2360,27 @@ func concurrencyPhase(g *gen, so *searchOut, addV func(key, desc, line string), 
 				gen.AddWitnessSign(idOf(ids[j]), *groupsig.DeserializeSign(b))
 			}(j)
 		}
-		wg2.Wait()
+		if !waitTimeout(&wg2, callDeadline) {
+			addV("hang:shared-generator", "AddWitnessSign on a generator shared by "+strconv.Itoa(n)+" goroutines did not return", "gen "+strconv.Itoa(k)+" - "+interleave(ids, sigs))
+			return
+		}
 		gs := gen.GetGroupSign()
 		so.Evaluations++
 		so.Dist["concurrency.shared-generator"]++
 		if hx.Hex(gs.Serialize()) != hx.Hex(ref) {
 			addV("concurrent-generator-signature-differs", "GroupSignGenerator fed concurrently holds "+trunc(hx.Hex(gs.Serialize()), 40)+" instead of f(0)*H "+trunc(hx.Hex(ref), 40), "gen "+strconv.Itoa(k)+" - "+interleave(ids, sigs))
 		}
+	}
+}
+
+func waitTimeout(wg *sync.WaitGroup, d time.Duration) bool {
+	done := make(chan struct{})
+	go func() { wg.Wait(); close(done) }()
+	select {
+	case <-done:
+		return true
+	case <-time.After(d):
+		return false
 	}
 }
 
@@ -2276,10 +2425,17 @@ func main() {
 	rng := hx.NewRng(hx.SeedFromEnv())
 	switch a["mode"] {
 	case "exec":
-		fmt.Println(hx.Guard(func() string { return execOp(a["op"]) }))
+		// prior=<op line>: executed first in the same process (replay of a history-dependent violation)
+		if p := a["prior"]; p != "" {
+			for _, pl := range strings.Split(p, " ;; ") {
+				fmt.Println("prior: " + callWithDeadline(pl))
+			}
+		}
+		fmt.Println(callWithDeadline(a["op"]))
 		return
 	case "conc":
 		// concurrency phase only (the thorough tier runs this from a -race build)
+		callDeadline = 40 * time.Second
 		so := searchOut{Dist: map[string]int{}, Algebra: map[string]int{}}
 		g := &gen{r: rng, dist: so.Dist, pool: newMsgPool(rng.Fork(), false)}
 		concurrencyPhase(g, &so, func(key, desc, line string) {
@@ -2412,7 +2568,13 @@ func main() {
 		}
 		for _, l := range lines {
 			g.count("history-replay")
-			g.out.Do(l, func() string { return execOp(l) })
+			if g.hangs >= maxHangs {
+				break
+			}
+			l := l
+			if a := g.out.Do(l, func() string { return callWithDeadline(l) }); strings.HasPrefix(a, "HANG") {
+				g.hangs++
+			}
 		}
 	}
 	dist, _ := json.Marshal(g.dist)
